@@ -2,7 +2,8 @@
 """Generate /verif/MANIFEST.json from checks.json (+ not_applicable.json)."""
 import json, os
 root = os.path.dirname(os.path.dirname(os.path.abspath(__file__)))
-checks = json.load(open(os.path.join(root, 'checks.json')))
+import glob
+checks = [json.load(open(f)) for f in sorted(glob.glob(os.path.join(root, 'checks.d', '*.json')))]
 props = [json.loads(l) for l in open(os.path.join(root, 'properties.jsonl'))]
 na_reasons = {}
 p = os.path.join(root, 'not_applicable.json')
